@@ -135,16 +135,60 @@ func runC07(c *core.Ctx) {
 		olds := callsMatching(fn, pkg, "AccountsDB", "updateOldCodeEntry")
 		for i, o := range olds {
 			mustPassChecked(c, fn, "C07/old-and-new-entry-together", fmt.Sprintf("AccountsDB.saveCode#%d", i), o,
-				func(in ssa.Instruction, cc *ssa.CallCommon) bool { return core.CallDesc(cc).Is(pkg, "AccountsDB", "updateNewCodeEntry") },
+				func(in ssa.Instruction, cc *ssa.CallCommon) bool {
+					return core.CallDesc(cc).Is(pkg, "AccountsDB", "updateNewCodeEntry")
+				},
 				core.SuccessReturn, nil, "after the old code entry was released, the new one is referenced (checked) before a success exit")
 		}
 		if len(olds) == 0 {
 			c.Fail("C07/old-and-new-entry-together", "AccountsDB.saveCode", fn.Pos(), "saveCode no longer releases the old code entry")
 		}
 	}
+	if fn := anchorM(c, pkg, "AccountsDB", "saveCode"); fn != nil {
+		newAcc, oldAcc := fn.Params[1], fn.Params[2]
+		// the account record always ends up pointing at the hash of the code it carries: every success exit taken
+		// with new code sets the account's code hash to the hash computed from that code
+		noNew := core.PruneWhen(func(cd core.Cond) bool {
+			call, ok := cd.V.(*ssa.Call)
+			return ok && call.Call.IsInvoke() && call.Call.Method.Name() == "HasNewCode" && !cd.Taken
+		})
+		mustPass(c, fn, "C07/account-points-at-its-code", "AccountsDB.saveCode/SetCodeHash", nil, func(in ssa.Instruction) bool {
+			cc := core.CallOf(in)
+			if cc == nil || !cc.IsInvoke() || cc.Method.Name() != "SetCodeHash" || cc.Value != ssa.Value(newAcc) {
+				return false
+			}
+			for v := range core.BackwardReachPure(cc.Args[0]) {
+				if call, ok := v.(*ssa.Call); ok && core.CallDesc(&call.Call).Name == "Compute" {
+					return true
+				}
+			}
+			// the nil hash of an account whose new code is empty
+			_, isPhi := cc.Args[0].(*ssa.Phi)
+			return isPhi
+		}, core.NilReturn, noNew, "whenever new code is saved the account's code hash is set to the hash of that code")
+		// the entry released is the one the STORED account refers to (old record), not whatever the handle being saved carries
+		for i, in := range callsMatching(fn, pkg, "AccountsDB", "updateOldCodeEntry") {
+			arg := core.CallOf(in).Args[1]
+			fromOld, fromNew := false, false
+			for v := range core.BackwardReachPure(arg) {
+				if call, ok := v.(*ssa.Call); ok && call.Call.IsInvoke() && call.Call.Method.Name() == "GetCodeHash" {
+					if call.Call.Value == ssa.Value(oldAcc) {
+						fromOld = true
+					}
+					if call.Call.Value == ssa.Value(newAcc) {
+						fromNew = true
+					}
+				}
+			}
+			c.Check(fromOld && !fromNew, "C07/account-points-at-its-code", fmt.Sprintf("AccountsDB.saveCode/released-entry#%d", i), in.Pos(), "the released code entry is the one recorded for the stored account (oldAcc.GetCodeHash())",
+				"the code entry that is released is not taken from the stored account record: with a stale handle the wrong entry is decremented and the replaced one leaks")
+		}
+	}
 	if fn := anchorM(c, pkg, "AccountsDB", "removeCode"); fn != nil {
 		mustPassChecked(c, fn, "C07/old-and-new-entry-together", "AccountsDB.removeCode", nil,
-			func(in ssa.Instruction, cc *ssa.CallCommon) bool { return core.CallDesc(cc).Is(pkg, "AccountsDB", "updateOldCodeEntry") },
+			func(in ssa.Instruction, cc *ssa.CallCommon) bool {
+				return core.CallDesc(cc).Is(pkg, "AccountsDB", "updateOldCodeEntry")
+			},
 			core.SuccessReturn, nil, "removing an account releases its code entry (checked)")
 	}
 	c.Floor("C07/counter-writers", 4)
